@@ -2,6 +2,7 @@ mod c04;
 mod coqfmt;
 mod cw1;
 mod cw20;
+mod cw4;
 mod world;
 mod rng;
 mod shard;
@@ -33,6 +34,7 @@ fn main() {
         "c04" => run_c04(mode, seed, count, &out, shard_size, &args),
         "cw20" => run_cw20(mode, seed, count, &out, shard_size, &args),
         "cw1" => run_cw1(mode, seed, count, &out, shard_size, &args),
+        "cw4" => run_cw4(mode, seed, count, &out, shard_size, &args),
         _ => {
             eprintln!("unknown family {}", family);
             std::process::exit(2);
@@ -139,6 +141,38 @@ fn run_cw1(mode: &str, seed: u64, count: usize, out: &PathBuf, shard_size: usize
     let stats = serde_json::json!({
         "family": "cw1", "mode": mode, "seed": seed, "cases": rans.len(), "steps": steps,
         "shards": names, "classes": classes, "evals": ["C07", "C08", "C16", "C17"],
+    });
+    fs::write(out.join("stats.json"), serde_json::to_string_pretty(&stats).unwrap()).unwrap();
+    println!("{} traces, {} steps, {} shards, {} classes", rans.len(), steps, names.len(), classes.len());
+}
+
+fn run_cw4(mode: &str, seed: u64, count: usize, out: &PathBuf, shard_size: usize, args: &[String]) {
+    let max_steps: usize = arg(args, "--steps").and_then(|s| s.parse().ok()).unwrap_or(25);
+    let rans: Vec<cw4::Ran> = match mode {
+        "gen" => (0..count as u64).map(|c| cw4::generate(seed, c, max_steps)).collect(),
+        "replay" => {
+            let f = arg(args, "--file").expect("--file");
+            let text = fs::read_to_string(f).unwrap();
+            text.lines()
+                .filter(|l| l.trim_start().starts_with('{'))
+                .map(|l| cw4::replay(&serde_json::from_str::<cw4::Trace>(l).unwrap()))
+                .collect()
+        }
+        _ => panic!("mode"),
+    };
+    let items: Vec<String> = rans.iter().map(cw4::to_coq).collect();
+    let fns: Vec<String> = ["9", "10", "14"].iter().map(|p| format!("check_traces {}", p)).collect();
+    let names = shard::write_list_shards(out, "cw4", cw4::COQ_HEADER, "trace", &fns, &items, shard_size);
+    let mut jf = fs::File::create(out.join("cases.jsonl")).unwrap();
+    let mut steps = 0usize;
+    for r in &rans {
+        writeln!(jf, "{}", serde_json::to_string(&r.trace).unwrap()).unwrap();
+        steps += r.results.len();
+    }
+    let classes = cw4::class_counts(&rans);
+    let stats = serde_json::json!({
+        "family": "cw4", "mode": mode, "seed": seed, "cases": rans.len(), "steps": steps,
+        "shards": names, "classes": classes, "evals": ["C09", "C10", "C14"],
     });
     fs::write(out.join("stats.json"), serde_json::to_string_pretty(&stats).unwrap()).unwrap();
     println!("{} traces, {} steps, {} shards, {} classes", rans.len(), steps, names.len(), classes.len());
